@@ -248,6 +248,21 @@ theorem C06_strategy_unobservable_partial [DecidableEq V] (W : World V) (LL : Lo
   rw [parseData_eq_parseWith]
   exact C06_same_outcome_partial W LL P hwf o data hnd (useDataFirst P o) b hk
 
+/-- **C06 from the declarations as written**: for any class of any sequence of class declarations whose names do not
+clash (`Parser.wfNames`; the rest of `wf` is derived, `C05_wf_of_no_name_clash`), under any runtime or class options. -/
+theorem C06_declared_same_outcome [DecidableEq V] (W : World V) (LL : LowerLaws W) (decls : List (ClassDecl V))
+    (B : Built V) (hB : B ∈ buildAll W decls) (hnames : B.parser.wfNames W = true)
+    (runtime : Option (Opts V)) (data : List (Key × V)) (hnd : (data.map (·.1)).Nodup) (b₁ b₂ : Bool) :
+    let o := (runtime.getD B.opts).normalise
+    SameOutcome (contract W B.parser o data).errs o.maxErrors
+      (runWith W B.parser o data b₁) (runWith W B.parser o data b₂)
+    ∧ (¬ KnownDefect W B.parser o data →
+        SameOutcomeStrict (runWith W B.parser o data b₁) (runWith W B.parser o data b₂)) := by
+  intro o
+  have hwf := C05_wf_of_no_name_clash W LL decls B hB hnames
+  exact ⟨C06_same_outcome W LL B.parser hwf o data hnd b₁ b₂,
+    C06_same_outcome_partial W LL B.parser hwf o data hnd b₁ b₂⟩
+
 /-! ### Non-vacuity, and the code before fixes/C06-1..5-*.patch -/
 
 def P₀ : Parser Nat := mkParser W₀ cA
